@@ -53,6 +53,7 @@ package ocidir
 //@   requires lock-held-when-claimed: locked ==> $held(OCIDir.mu)
 //@ func (*OCIDir).manifestGet(ctx, r) (m, err)
 //@   prop C06
+//@   modifies nothing
 //@   requires lock-held: $held(OCIDir.mu)
 //@ func (*OCIDir).manifestPut(ctx, r, m, opts) (err)
 //@   prop C06, C04
@@ -61,9 +62,6 @@ package ocidir
 //@ func (*OCIDir).updateIndex(r, d, child, locked) (err)
 //@   prop C06
 //@   requires lock-held-when-claimed: locked ==> $held(OCIDir.mu)
-//@ func (*OCIDir).closeProcManifest
-//@   prop C06
-//@   requires lock-held: $held(OCIDir.mu)
 //@ func (*OCIDir).referrerDelete
 //@   prop C06
 //@   requires lock-held: $held(OCIDir.mu)
@@ -141,3 +139,49 @@ package ocidir
 //@   infunc \)\.ManifestDelete$
 //@   requires one-entry: j == i + 1 && 0 <= i && i < len(s)
 //@   requires only-deleted-digest: s[i].Digest == caller.r.Digest
+
+// ---- C08: layout garbage collection ----
+// Sweep: a file is removed only if its digest was not marked, the layout was modified by this
+// client, and no copy holds a GC lock on it; all under the layout mutex.
+//@ callsite os.Remove(name)
+//@   prop C08
+//@   name os.Remove/Close
+//@   in ~/scheme/ocidir
+//@   infunc \)\.Close$
+//@   requires unmarked: !caller.dl[caller.digest]
+//@   requires no-copy-in-progress: caller.gc != nil && caller.gc.locks <= 0 && caller.gc.mod
+//@   requires under-layout-lock: $held(OCIDir.mu)
+// Lock accounting
+//@ func (*OCIDir).GCLock(r)
+//@   prop C08
+//@   let had = $has(o.modRefs, r.Path) && o.modRefs[r.Path] != nil
+//@   let n0 = o.modRefs[r.Path].locks
+//@   ensures lock-counted: o.modRefs[r.Path] != nil && (had ==> o.modRefs[r.Path].locks == n0 + 1) && (!had ==> o.modRefs[r.Path].locks == 1)
+//@ func (*OCIDir).GCUnlock(r)
+//@   prop C08
+//@   let had = $has(o.modRefs, r.Path) && o.modRefs[r.Path] != nil
+//@   let n0 = o.modRefs[r.Path].locks
+//@   ensures unlock-counted: had && n0 > 0 ==> o.modRefs[r.Path].locks == n0 - 1
+//@   ensures never-negative: had && n0 <= 0 ==> o.modRefs[r.Path].locks == n0
+// Mark phase: everything a manifest names is marked (and what a nested manifest names, by the
+// function's own contract for the recursive call); marks are never removed.
+//@ func (*OCIDir).closeProcManifest(ctx, r, m, dl) (err)
+//@   prop C08, C06
+//@   modifies M|map[string]bool
+//@   requires lock-held: $held(OCIDir.mu)
+//@   requires dl != nil
+//@   let dlm = *dl
+//@   loop 0 (cur)
+//@     invariant same-map: *dl == dlm && -1 <= $idx && $idx < len(ml)
+//@     invariant entries-marked: forall(k, 0, $idx + 1, dlm[string(ml[k].Digest)])
+//@     invariant marks-kept: forall(s, string, old(dlm[s]) ==> dlm[s])
+//@   loop 1 (layer)
+//@     invariant same-map: *dl == dlm && -1 <= $idx__2 && $idx__2 < len(layers)
+//@     invariant layers-marked: forall(k, 0, $idx__2 + 1, dlm[string(layers[k].Digest)])
+//@     invariant config-kept: $ret(GetConfig, 1) == nil ==> dlm[string($ret(GetConfig, 0).Digest)]
+//@     invariant entries-kept: ok ==> forall(k, 0, len(ml), dlm[string(ml[k].Digest)])
+//@     invariant marks-kept: forall(s, string, old(dlm[s]) ==> dlm[s])
+//@   ensures marks-kept: *dl == dlm && forall(s, string, old(dlm[s]) ==> dlm[s])
+//@   ensures index-entries-marked: ok && err == nil ==> forall(k, 0, len(ml), dlm[string(ml[k].Digest)])
+//@   ensures layers-marked: ok__2 && err == nil ==> forall(k, 0, len(layers), dlm[string(layers[k].Digest)])
+//@   ensures config-marked: ok__2 && err == nil && $ret(GetConfig, 1) == nil ==> dlm[string($ret(GetConfig, 0).Digest)]
